@@ -1,5 +1,6 @@
 (* C07 - decoding consumes exactly one encoding and preserves what follows.  Statements only. *)
-From PV Require Import Base.Bytes Model.Proc Model.Types Model.Enc Model.Dec Proofs.ProcSim Proofs.DecStream.
+From PV Require Import Base.Bytes Model.Proc Model.Types Model.TableTypes Model.Enc Model.Dec Gen.Tables
+     Proofs.ProcSim Proofs.DecStream Proofs.TagsetShape Proofs.RoundTrip1.
 Local Open Scope nat_scope.
 
 (* Generic: a decoder that never looks at the end of its input returns the same value whatever
@@ -26,3 +27,13 @@ Example C07_nonvacuous :
   /\ decode_with BER 30 (Some (TSeqOf TInt)) ([48%N; 128%N; 2%N; 1%N; 5%N; 0%N; 0%N] ++ [0%N; 0%N; 7%N])
      = Ok (DV (TSeqOf TInt) (VList [VInt 5]), [0%N; 0%N; 7%N]).
 Proof. split; vm_compute; reflexivity. Qed.
+
+(* Stage 1, unconditional on cleanliness: for every simple-typed value under any stack of tags, encoded
+   by the BER or DER encoder (definite lengths), and ANY following octets t, one-shot decoding by any
+   of the three decoders returns a value of the same abstract content together with exactly t *)
+Theorem C07_tail_preserved_stage1 : forall ce cd T v b tl,
+  enc_ok ce -> wf_tags T = true -> stage1_val ce cd T v = true ->
+  encode ce true 0 T v = Ok b -> (N.of_nat (length b) <= index_max)%N ->
+  exists v', decode cd (Some T) (b ++ tl) = Ok (DV T v', tl) /\ abs T v' = abs T v.
+Proof. exact roundtrip_stage1. Qed.
+Print Assumptions C07_tail_preserved_stage1.
